@@ -563,7 +563,13 @@ fn success_postcondition(root: &Root, op: &Op, outcome: &Outcome) -> Option<Stri
         Op::RemoveFile { path } | Op::RemoveDir { path } | Op::RemoveAll { path } => verdict(false, path),
         Op::Rename { src, dst, flags } => {
             if *flags & 2 != 0 {
-                verdict(true, dst)
+                // RENAME_EXCHANGE: both names exist afterwards
+                let a = verdict(true, dst);
+                if a != "post ok" {
+                    a
+                } else {
+                    verdict(true, src)
+                }
             } else {
                 let a = verdict(false, src);
                 if a != "post ok" {
@@ -958,7 +964,10 @@ fn classic_fault_cases() -> Vec<(TreeSpec, Op)> {
         (t.clone(), Op::RemoveAll { path: b"a".to_vec() }),
         (t.clone(), Op::MkdirAll { path: b"a/l/n1/n2/n3".to_vec(), mode: 0o755 }),
         (t.clone(), Op::Rename { src: b"a/b/f1".to_vec(), dst: b"a/c/g".to_vec(), flags: 0 }),
-        (t, Op::CreateFile { path: b"a/l/new".to_vec(), flags: libc::O_WRONLY, mode: 0o644 }),
+        (t.clone(), Op::CreateFile { path: b"a/l/new".to_vec(), flags: libc::O_WRONLY, mode: 0o644 }),
+        // renames whose flags decide the outcome: whatever fails, NOREPLACE never replaces and EXCHANGE never loses a name
+        (t.clone(), Op::Rename { src: b"a/b/f1".to_vec(), dst: b"a/b/f2".to_vec(), flags: libc::RENAME_NOREPLACE }),
+        (t, Op::Rename { src: b"a/b/f1".to_vec(), dst: b"f".to_vec(), flags: libc::RENAME_EXCHANGE }),
     ]
 }
 
@@ -1486,6 +1495,119 @@ pub fn suite_race(ctx: &mut Ctx, seed: u64, n: usize, opname: &str) {
 // ---------------------------------------------------------------------------
 // reopen from a thread with its own descriptor table (C09)
 // ---------------------------------------------------------------------------
+
+/// C02: an emulated lookup through `..` made by a thread that has its own descriptor table (`unshare(CLONE_FILES)`),
+/// while the thread-group leader holds *other* directories under the numbers the walk uses.  `check_current` must read
+/// the calling thread's descriptors (`/proc/thread-self/fd/N`): through `/proc/self/fd/N` it would compare the leader's.
+pub fn suite_lookup_unshared(ctx: &mut Ctx) {
+    use std::sync::mpsc;
+    let mk = |ents: &[(&[u8], Kind)]| {
+        let mut spec = TreeSpec::default();
+        for (p, k) in ents {
+            spec.entries.push(tree::Entry { path: p.to_vec(), kind: k.clone(), mode: 0o755 });
+        }
+        spec
+    };
+    let spec = mk(&[(b"d", Kind::Dir), (b"d/e", Kind::Dir), (b"victim", Kind::File), (b"other", Kind::Dir)]);
+    let lookups: [&[u8]; 4] = [b"d/../victim", b"d/e/../../victim", b"d/e/..", b"d/e/n1/n2"];
+    for (round, path) in lookups.iter().enumerate() {
+        // the last one is a mkdir_all (its partial lookup's handle is re-opened through the fd magic-link)
+        let is_mkdir = round == 3;
+        let (top, rootdir) = setup_case_dir(ctx, "ucase", &spec);
+        let labels = Labels::of_tree(&spec, &rootdir);
+        let (tx_fd, rx_fd) = mpsc::channel::<i32>();
+        let (tx_go, rx_go) = mpsc::channel::<()>();
+        let rootdir2 = rootdir.clone();
+        let path2 = path.to_vec();
+        let labels2 = Labels::of_tree(&spec, &rootdir);
+        let worker = std::thread::spawn(move || {
+            if unsafe { libc::unshare(libc::CLONE_FILES) } != 0 {
+                return None;
+            }
+            let mut root = Root::open(&rootdir2).expect("open root");
+            root.verif_set_emulated(true);
+            tx_fd.send(root.as_fd().as_raw_fd()).unwrap();
+            rx_go.recv().unwrap();
+            let cfg = cfg_line(&root, true, ResolverFlags::empty());
+            let op = if is_mkdir {
+                Op::MkdirAll { path: path2.clone(), mode: 0o755 }
+            } else {
+                Op::Resolve { path: path2.clone(), nofollow: false }
+            };
+            let kern = if is_mkdir { None } else { ops::kernel_line(&root, &op, ResolverFlags::empty(), &labels2) };
+            let (outcome, log) = ops::run_recorded(&root, &op, None);
+            let line = outcome.line(&labels2);
+            Some((cfg, log, line, kern, op.line()))
+        });
+        let n = match rx_fd.recv() {
+            Ok(n) => n,
+            Err(_) => {
+                let _ = worker.join();
+                let _ = fs::remove_dir_all(&top);
+                continue;
+            }
+        };
+        // the leader opens another directory under every free number around the worker's root descriptor
+        let other = cpath(&rootdir.join("other"));
+        let mut placed: Vec<i32> = Vec::new();
+        for k in n..n + 8 {
+            if unsafe { libc::fcntl(k, libc::F_GETFD) } < 0 {
+                let fd = unsafe { libc::open(other.as_ptr(), libc::O_PATH | libc::O_DIRECTORY | libc::O_CLOEXEC) };
+                if fd >= 0 {
+                    if fd != k {
+                        unsafe {
+                            libc::dup3(fd, k, libc::O_CLOEXEC);
+                            libc::close(fd);
+                        }
+                    }
+                    placed.push(k);
+                }
+            }
+        }
+        tx_go.send(()).unwrap();
+        let res = worker.join().ok().flatten();
+        for k in placed {
+            unsafe { libc::close(k) };
+        }
+        if let Some((cfg, log, line, kern, opline)) = res {
+            let mut s = String::new();
+            s.push_str(&format!("case ul{round}\nmeta seed=0 suite=lookup-unshared rootfd={n}\n"));
+            s.push_str(&format!("tree {}\n", spec.entries.len()));
+            s.push_str(&spec.lines());
+            s.push_str(&opline);
+            s.push('\n');
+            s.push_str(&cfg);
+            s.push('\n');
+            s.push_str(&fmt::transcript(&log));
+            s.push_str(&line);
+            s.push('\n');
+            if let Some(k) = kern {
+                s.push_str(&k);
+                s.push('\n');
+            }
+            if is_mkdir {
+                // where did the directories go?
+                let made = rootdir.join("d/e/n1/n2").is_dir();
+                let strays: Vec<String> = fs::read_dir(rootdir.join("other"))
+                    .map(|d| d.filter_map(|e| e.ok()).map(|e| e.file_name().to_string_lossy().into_owned()).collect())
+                    .unwrap_or_default();
+                if made && strays.is_empty() && line.starts_with("res ok") {
+                    s.push_str("unshared same\n");
+                } else {
+                    s.push_str(&format!(
+                        "unshared OTHER mkdir_all by a thread with its own descriptor table: created_in_place={} entries_created_in_the_leader's_directory={:?}\n",
+                        made as u8, strays
+                    ));
+                }
+            }
+            s.push_str("fdt same\nend\n");
+            ctx.out.write_all(s.as_bytes()).unwrap();
+        }
+        let _ = labels;
+        let _ = fs::remove_dir_all(&top);
+    }
+}
+
 
 /// A thread that has called `unshare(CLONE_FILES)` has its own descriptor table; the same number
 /// means something else in the rest of the process.  `reopen` must go through *this thread's* table.
